@@ -1,7 +1,7 @@
 (* C10 -- reference-counted and pooled objects are released exactly once, never early.
    Property theorems only: each is closed by [exact] of a lemma proved in Conc/. *)
 From Coq Require Import List Arith Bool NArith.
-From Muscle Require Import Gen.Consts Conc.Pool Conc.PoolProofs Conc.RefCnt Conc.RefInv Conc.RefActs Conc.RefProofs.
+From Muscle Require Import Gen.Consts Conc.Pool Conc.PoolProofs Conc.RefCnt Conc.RefInv Conc.RefActs Conc.RefProofs Conc.RefFork Conc.RefPool.
 Import ListNotations.
 
 (* ---- the counting protocol: any number of threads, any programs, every reachable state ---- *)
@@ -70,6 +70,39 @@ Theorem C10_slab_created_only_when_exhausted : forall N hlen p p' o sn, 1 <= N -
   pool_obtain N hlen p = (p', o, Some sn) -> p_cur p = 0.
 Proof. exact obtain_creates_only_when_exhausted. Qed.
 Print Assumptions C10_slab_created_only_when_exhausted.
+
+(* ---- heap states and pool bookkeeping together, in every reachable state ---- *)
+
+Theorem C10_pool_inv : forall N K s0 s, 1 <= N -> inv1 K s0 -> plink N s0 -> progs_ok s0 -> reachable N K s0 s ->
+  plink N s /\ (forall t, t < length (s_thr s) -> bad56 (snd (step N K s t)) = false).
+Proof. exact pool_inv. Qed.
+Print Assumptions C10_pool_inv.
+
+Theorem C10_obtain_fresh : forall N K s0 s x, 1 <= N -> inv1 K s0 -> plink N s0 -> progs_ok s0 -> reachable N K s0 s ->
+  pfree N (p_slabs (s_pool s)) x ->
+  o_st (hobj s x) = Pooled /\ is_default (hobj s x) = true /\ units x s = 0.
+Proof. exact obtain_fresh. Qed.
+Print Assumptions C10_obtain_fresh.
+
+Theorem C10_slab_delete_safe : forall N K s0 s t sd x, 1 <= N -> inv1 K s0 -> plink N s0 -> progs_ok s0 -> reachable N K s0 s ->
+  t < length (s_thr s) -> In (ASlabDel sd) (t_todo (thr s t)) -> owns N sd x = true ->
+  o_st (hobj s x) = Pooled /\ units x s = 0 /\ ~ owned_by N (p_slabs (s_pool s)) x.
+Proof. exact slab_delete_safe. Qed.
+Print Assumptions C10_slab_delete_safe.
+
+Theorem C10_initial_pool_link : forall N max stksize progs, plink N (init_state max stksize progs).
+Proof. exact init_plink. Qed.
+Print Assumptions C10_initial_pool_link.
+
+(* thread creation (the parent hands each new thread a copy of its references) preserves the invariant *)
+Theorem C10_fork_preserves : forall K s progs, inv1 K s -> 0 < length (s_thr s) -> t_todo (thr s 0) = [] ->
+  inv1 K (fork_state s progs).
+Proof. exact fork_inv1. Qed.
+Print Assumptions C10_fork_preserves.
+
+Theorem C10_fork_preserves_pool_link : forall N s progs, plink N s -> plink N (fork_state s progs).
+Proof. exact fork_plink. Qed.
+Print Assumptions C10_fork_preserves_pool_link.
 
 (* INVALID_NODE_INDEX (written [None] in the model) can never be a valid node index, for the constants
    translated from util/ObjectPool.h *)
